@@ -37,7 +37,7 @@ def make_producer(rng, tier):
     shape = tuple(rng.randint(2, 9 if tier == "quick" else 14) for _ in range(nd))
     a = (np.arange(int(np.prod(shape)), dtype="f8") * 0.5 + 1).reshape(shape)
     x = da.from_array(a, chunks=rand_chunks(rng, shape))
-    kind = rng.choice(["plain", "sliding", "sliding", "sliding_keep", "elem_slice", "rechunk_slice", "reshape", "concat_rechunk", "transpose", "daskint", "sliding_drift", "take_slice", "take_slice"])
+    kind = rng.choice(["plain", "sliding", "sliding", "sliding_keep", "elem_slice", "rechunk_slice", "reshape", "concat_rechunk", "transpose", "daskint", "sliding_drift", "take_slice", "take_slice", "unify_flip_mb", "unify_flip_mb"])
     e = a
     if kind == "sliding_drift":
         # search for a layout whose optimized grid differs from the advertised one while coarse summaries (block
@@ -79,6 +79,14 @@ def make_producer(rng, tier):
         x = x.rechunk(rand_chunks(rng, e.shape))
     elif kind == "transpose" and nd >= 2:
         x, e = x.T, a.T
+    elif kind == "unify_flip_mb":
+        # a plain map_blocks (which pins nothing) over an expression whose grid drifts through nested rewrites:
+        # flips pushed into the operands of an elemwise of two differently chunked arrays
+        a2 = a * 0.25 + 2
+        y2 = da.from_array(a2, chunks=rand_chunks(rng, shape))
+        sl = tuple(slice(None, None, -1) if rng.random() < 0.7 else slice(None) for _ in range(nd))
+        x = ((x + y2)[sl] * 2).map_blocks(_plus_one, dtype="f8")
+        e = ((a + a2)[sl] * 2) + 1
     elif kind == "take_slice":
         # a contiguous window of a fancy-indexed array: the slice may be pushed through the take, which regroups the blocks
         n = shape[0]
@@ -99,6 +107,10 @@ def make_producer(rng, tier):
         idx = np.array([rng.randrange(n) for _ in range(rng.randint(1, 5))])
         x, e = x[da.from_array(idx, chunks=max(1, len(idx) // 2))], a[idx]
     return kind, x, e
+
+
+def _plus_one(b):
+    return b + 1
 
 
 def expected_layout(chunks):
